@@ -23,7 +23,7 @@ vars == <<proj, used, usage, ts, lim, lsec, cur, pc, ld>>
 
 RoundDiv(a, b) == (2 * a + b) \div (2 * b)
 PinnedMs(t) == T(t).leaf /\ T(t).effort = 0 /\ (T(t).pin >= 0 \/ T(t).pinEnd >= 0)
-ModeOf(t) == IF P.alap /\ ~T(t).expl THEN FALSE ELSE T(t).fwd
+ModeOf(t) == IF T(t).leaf THEN ExpFwd(t) ELSE BaseFwd(t)      \* incl. the pull-back of the predecessors of backward anchors (SchedCore)
 
 Init ==
   /\ proj \in Universe
